@@ -25,7 +25,8 @@ CONFIGS["C08"] = dict(
          "local computation}, buffered channel cap 1..4, main drains the channel and waits on a WaitGroup (either order); half "
          "of the programs instead start their workers from a function called from main (or two calls deep) while main keeps "
          "declaring locals and the workers call a named function in a loop (sharing only a channel and a WaitGroup); "
-         "25% of programs drop the Ego-level locking (racy by design). Knobs per run: optimizer on/off, symbol allocation "
+         "25% of programs drop the Ego-level locking (racy by design); one program in five starts its workers as closures in the first statements of a named function "
+         "without parameters or locals, all shared state package-level (nested shape 3). Knobs per run: optimizer on/off, symbol allocation "
          "size, preemption probability, free-step budget, scheduling point after every mutex release (2 runs in 3). non-trivial = >=2 tasks runnable at some decision; distinct = "
          "distinct scheduler decision sequence hash",
     real=["tokenizer, compiler, bytecode VM, symbols, data (channels), runtime/sync, builtins, fmt"],
